@@ -14,7 +14,7 @@ import (
 
 // C10 - the message-size limit bounds buffering on every path.
 
-const ruleC10 = "rapid draws a per-service limit L in {256 B .. 64 KiB} and one request or response message whose size is placed relative to L in a chosen representation (wire, decompressed, re-encoded, re-compressed): L-64, L-1, L, L+1, 2L, 10L, and highly compressible payloads inflating 20..1000 x; declared or undeclared lengths; every client form x target configuration, i.e. every adapter path. Oracles: (A1) the largest pooled buffer seen during the request (instrumented pool, tag verif) is <= 8L + 64 KiB and the bytes allocated during ServeHTTP (runtime.MemStats.TotalAlloc delta, single in-flight request) are <= 24L + 24 MiB; (A2) if every representation of every message is <= L - margin the RPC is not rejected with resource_exhausted; (A3) a message delivered in converted form had wire, decompressed and observed re-encoded size <= L; (A4) a size rejection carries resource_exhausted and the oversized message is not delivered. Non-trivial = some representation within [L/2, 4L] or a compression ratio >= 20; distinct by hash(L, direction, sizes, client and backend triple)."
+const ruleC10 = "rapid draws a per-service limit L in {256 B .. 64 KiB} and one request or response message whose size is placed relative to L in a chosen representation (wire, decompressed, re-encoded, re-compressed): L-64, L-1, L, L+1, 2L, 10L, and highly compressible payloads inflating 20..1000 x; declared or undeclared lengths; every client form x target configuration, i.e. every adapter path. Oracles: (A1) the largest pooled buffer seen during the request (instrumented pool, tag verif) is <= 8L + 64 KiB and the bytes allocated during ServeHTTP (runtime.MemStats.TotalAlloc delta, single in-flight request) are <= 24L + 24 MiB; (A2) if every representation of every message is <= L - margin the RPC is not rejected with resource_exhausted; (A3) a message delivered in converted form had wire, decompressed and observed re-encoded size <= L; (A4) a size rejection carries resource_exhausted and the oversized message is not delivered; (A6) a request message whose plain form exceeds L and which the transcoder itself had to inflate never reaches the backend as a cleanly ending payload, not even truncated. Non-trivial = some representation within [L/2, 4L] or a compression ratio >= 20; distinct by hash(L, direction, sizes, client and backend triple)."
 
 type sizeCase struct {
 	Sc        Scenario `json:"scenario"`
@@ -239,6 +239,22 @@ func checkC10(c *sizeCase) *CheckResult {
 		for i, p := range view.Payloads {
 			if len(p) > L && i < len(view.Msgs) && view.Msgs[i] != nil {
 				res.violate("delivered_despite_rejection", sig+":a4", "limit %d: RPC rejected with resource_exhausted but the backend received a complete message of %d bytes", L, len(p))
+			}
+		}
+	}
+	// A6: a request message whose plain form is over the limit and which the transcoder itself had to
+	// inflate (the backend does not take the client's compression, or the codec changes) is not handed
+	// to the backend at all - not even as a cleanly ending prefix, whatever the backend then makes of it
+	if c.Direction == "request" && view != nil && reqPlain > L && sc.Client.Form != FormREST && sc.Client.Form != FormConnectGet && view.ReadErr == "" {
+		inflated := effectiveCompression(&sc.Client, out.Sent) != "" && (view.Compression != effectiveCompression(&sc.Client, out.Sent) || view.Codec != sc.Client.Codec || view.Protocol == ProtoREST)
+		if inflated {
+			for i, p := range view.Payloads {
+				// the i-th payload the backend got corresponds to the i-th message sent (earlier, smaller
+				// messages of a stream are delivered legitimately)
+				if i < len(out.Sent.Payloads) && len(out.Sent.Payloads[i]) > L && len(p) > 0 {
+					res.violate("oversized_forwarded", sig+":a6", "limit %d: request message %d of %d decompressed bytes had to be inflated by the transcoder (%s -> %s), yet the backend was handed a cleanly ending payload of %d bytes for it (client outcome %s)", L, i, len(out.Sent.Payloads[i]), ct, bt, len(p), cv.outcome())
+					break
+				}
 			}
 		}
 	}
